@@ -122,7 +122,10 @@ class WorldBase:
         nev, dig, fired = io.end_op()
         if line_fault and state["fired"]:
             fired = ("interrupt_line", "line", fault["at"])
-        if fired:
+        if fired and fired[0] == "yield":
+            self.ctx.probe("operation_nested_at_io_event")
+            self.ctx.log(f"yield at {fired[1]}#{fired[2]}")
+        elif fired:
             self.ctx.faults_fired[fired[0]] = self.ctx.faults_fired.get(fired[0], 0) + 1
             self.ctx.log(f"fault {fired[0]} at {fired[1]}#{fired[2]}")
         elif fault:
@@ -135,6 +138,54 @@ class WorldBase:
         else:
             self._last_exc = None
         return res, info, (nev, dig, fired)
+
+    # -- another client's operation while this one is inside an I/O call ---------------------
+    def nest_plan(self, nest):
+        """Plan for self.call: at the nest['at']-th I/O event of the operation the scheduler runs
+        nest['op'] (a whole operation of another client, judged as usual) and then lets the
+        interrupted I/O call continue."""
+        return {"kind": "yield", "at": nest["at"], "run": lambda: self.run_nested(nest["op"])}
+
+    def run_nested(self, inner):
+        try:
+            d = getattr(self, "do_" + inner["op"])(inner)
+            self.ctx.log(f"nested {inner['op']} {d}")
+        except Violation as v:
+            if getattr(self, "_nested_violation", None) is None:
+                self._nested_violation = v          # raised once the enclosing call has returned
+        except Exception as e:  # noqa: BLE001 - a refused / failed inner operation must not look like an I/O error of the outer one
+            self.ctx.log(f"nested {inner['op']} not run: {type(e).__name__}")
+            self.ctx.probe("nested_operation_not_run")
+
+    def raise_nested(self):
+        v = getattr(self, "_nested_violation", None)
+        if v is not None:
+            self._nested_violation = None
+            raise v
+
+    @staticmethod
+    def in_thread(fn):
+        """The client makes the call from a worker thread (started and joined: nothing runs
+        concurrently).  Context- and thread-local state - numpy's print options among them -
+        starts from its defaults there."""
+        import threading
+
+        def run():
+            box = {}
+
+            def target():
+                try:
+                    box["r"] = fn()
+                except BaseException as e:  # noqa: BLE001
+                    box["e"] = e
+            th = threading.Thread(target=target)
+            th.start()
+            th.join()
+            if "e" in box:
+                e = box.pop("e")
+                raise e
+            return box.get("r")
+        return run
 
     def hold_last(self, steps, what=""):
         """The client keeps the exception of the failed call alive for `steps` more steps."""
